@@ -118,7 +118,7 @@ def check_decl(kind, base_t, specs, res: JobResult, tier):
         res.violations.append(Violation(k, f"{k}|{kind}|{'signed' if signed else 'unsigned'}", c, f"{text_of(kind, base, specs, 'oneline')!r}: " + str(d)[:400], feats))
 
     bitf = size <= 2
-    sdef = "\nstruct S { E e; E arr[2]; E nt[]; " + ("E lo : 4; E hi : 4; " if size == 1 else ("E lo : 4; E hi : 12; " if size == 2 else "")) + "uint8 t; };"
+    sdef = "\nstruct DynE { uint8 n; E d[n]; };\nstruct EofE { E x[EOF]; };\nstruct S { E e; E arr[2]; E nt[]; " + ("E lo : 4; E hi : 4; " if size == 1 else ("E lo : 4; E hi : 12; " if size == 2 else "")) + "uint8 t; };"
     for style in ("oneline", "multiline", "broken"):
         text = text_of(kind, base, specs, style)
         for endian in "<>":
@@ -191,6 +191,15 @@ def check_decl(kind, base_t, specs, res: JobResult, tier):
                             issue("struct:type", f"value {v}: field types {[type(z).__name__ for z in [s.e, *s.arr, *s.nt]]}", v)
                         if s.e != x or hash(s.e) != hash(x):
                             issue("eq-hash", f"value {v}: struct field and scalar parse differ in ==/hash", v)
+                        # every way of parsing the same underlying value gives equal objects with equal hashes (and the same member, if it names one)
+                        ways = {"struct array element": s.arr[0], "terminated array element": s.nt[0] if v != 0 else None, "E[2]": E[2](b + b)[1], "E x[EOF] in a struct": cs.EofE(b + b).x[1],
+                                "E[n] (dynamic count)": cs.DynE(bytes([1]) + b).d[0]}
+                        for wname, z in ways.items():
+                            if z is None:
+                                continue
+                            if not (z == x and x == z) or hash(z) != hash(x) or getattr(z, "name", None) != getattr(x, "name", None) or type(z) is not E:
+                                issue("eq-hash", f"value {v}: {wname} {z!r} (name {getattr(z, 'name', None)!r}) vs scalar parse {x!r} (name {getattr(x, 'name', None)!r}): ==/hash/name differ", v, way=wname)
+                                break
                         d = s.dumps()
                         if d != data:
                             issue("struct:dumps", f"value {v}: dumps {d.hex()} != input {data.hex()}", v)
@@ -259,6 +268,27 @@ def cross_enum(tier) -> JobResult:
             a2 = getattr(cs1, n)(bytes([v]))
             if not (a == a2 and hash(a) == hash(a2)):
                 res.violations.append(Violation("cross-enum:same-class", "cross-enum:same-class", {"enum": n, "value": v}, f"{n}({v}) and {n}(bytes) differ in ==/hash"))
+    # declarations in ONE load whose members have the same names and the same value expressions, but other values: each is numbered on its own
+    multi = ("enum M1 : uint8 { BASE = 1, NEXT = BASE + 1, LAST, MASK = (NEXT | 8) };\nenum M2 : uint16 { BASE = 16, NEXT = BASE + 1, LAST, MASK = (NEXT | 8) };\n"
+             "flag M3 : uint8 { R = 1, W = 2, RW = R | W, NEXTF };\nflag M4 : uint16 { R = 4, W = 8, RW = R | W, NEXTF };\n#define K12 3\nenum M5 { A5 = K12 + 1, B5 };")
+    want = {"M1": [("BASE", 1), ("NEXT", 2), ("LAST", 3), ("MASK", 10)], "M2": [("BASE", 16), ("NEXT", 17), ("LAST", 18), ("MASK", 25)],
+            "M3": [("R", 1), ("W", 2), ("RW", 3), ("NEXTF", 4)], "M4": [("R", 4), ("W", 8), ("RW", 12), ("NEXTF", 16)], "M5": [("A5", 4), ("B5", 5)]}
+    for order in (("M1", "M2", "M3", "M4", "M5"), ("M2", "M1", "M4", "M3", "M5")):
+        parts = {ln.split()[1]: ln for ln in multi.split("\n") if ln.startswith(("enum", "flag"))}
+        text2 = "#define K12 3\n" + "\n".join(parts[n] for n in order)
+        for compiled in (False, True):
+            csm = cstruct()
+            res.evaluations += 1
+            res.states += 1
+            res.nontrivial += 1
+            try:
+                csm.load(text2, compiled=compiled)
+                for n in order:
+                    got = [(k, m.value) for k, m in getattr(csm, n).__members__.items()]
+                    if got != want[n]:
+                        res.violations.append(Violation("numbering:several-declarations", "numbering:several-declarations", {"enums": list(order), "value": 0}, f"{text2!r}: {n} has members {got}, C rule gives {want[n]}"))
+            except Exception as e:  # noqa: BLE001
+                res.violations.append(Violation("numbering:several-declarations-raises", "numbering:several-declarations", {"enums": list(order), "value": 0}, f"{text2!r}: {impl.exc_sig(e)} {e!r}"))
     if cs1.ANON1 != 1 or cs1.ANON2.value != 2:
         res.violations.append(Violation("anonymous:values", "anonymous:values", {}, f"anonymous enum constants: {cs1.ANON1!r} {cs1.ANON2!r}"))
     res.samples.append({"cross": text})
